@@ -131,11 +131,19 @@ theorem snoc_split {α} {done pre post : List α} {p q : α} (h : done ++ [p] = 
     have h' : done ++ [p] = (pre ++ q :: post0) ++ [x] := by simpa using h
     have := List.append_inj' h' (by simp)
     simp only [List.cons.injEq, and_true] at this
-    exact ⟨post0, by rw [this.2], this.1⟩
+    exact ⟨post0, by rw [this.2]; simp, this.1⟩
 
 theorem addLevel_rq (b : Batch) (n : Nat) : (b.addLevel n).rq = b.rq ∧ (b.addLevel n).limit = b.limit ∧
     (b.addLevel n).cuts = b.cuts := by
   unfold Batch.addLevel; split <;> simp
+
+theorem addLevel_spec (b : Batch) (n : Nat) :
+    (b.size + n > b.limit ∧ (b.addLevel n).size = b.limit ∧ (b.addLevel n).reached = true) ∨
+    (b.size + n ≤ b.limit ∧ (b.addLevel n).size = b.size + n ∧ (b.addLevel n).reached = b.reached) := by
+  unfold Batch.addLevel
+  split
+  · left; exact ⟨by assumption, rfl, rfl⟩
+  · right; exact ⟨by omega, rfl, rfl⟩
 
 /-- one level of the loop, for any per-batch update `f` that grows exactly the found batches and appends at most the
 cut of this level -/
@@ -162,9 +170,10 @@ theorem Inv.step {inst : Instance} {done : List Int} {s : MState} (h : Inv inst 
     intro b hb
     rcases hgrow b hb with ⟨hre, _, e1, _⟩ | ⟨_, e1, _⟩
     · obtain ⟨_, h2⟩ := h.open_ b hb hre
-      rw [e1]; unfold Batch.addLevel; split
-      · right; exact ⟨rfl, h2, hre⟩
-      · left; simp
+      rw [e1]
+      rcases addLevel_spec b (cnt (inst.queue b.rq) p) with ⟨_, a2, _⟩ | ⟨_, a2, _⟩
+      · right; exact ⟨a2, h2, hre⟩
+      · left; omega
     · left; omega
   refine ⟨?_, ?_, ?_, ?_, ?_, ?_, ?_, ?_⟩
   · -- rqs
@@ -182,12 +191,9 @@ theorem Inv.step {inst : Instance} {done : List Int} {s : MState} (h : Inv inst 
     · obtain ⟨h1, h2⟩ := h.open_ b hb hre
       rw [e2] at hre'
       rw [e1]
-      unfold Batch.addLevel at hre' ⊢
-      split at hre'
-      · simp at hre'
-      · rename_i hle
-        simp only [if_neg hle]
-        omega
+      rcases addLevel_spec b (cnt (inst.queue b.rq) p) with ⟨_, _, a3⟩ | ⟨a1, a2, _⟩
+      · rw [a3] at hre'; cases hre'
+      · omega
     · rw [e2] at hre'
       obtain ⟨h1, h2⟩ := h.open_ b hb hre'
       rcases hc with hc | hc
@@ -201,12 +207,9 @@ theorem Inv.step {inst : Instance} {done : List Int} {s : MState} (h : Inv inst 
     · obtain ⟨h1, h2⟩ := h.open_ b hb hre
       rw [e2] at hre'
       rw [e1]
-      unfold Batch.addLevel at hre' ⊢
-      split at hre'
-      · rename_i hgt
-        simp only [if_pos hgt]
-        omega
-      · rw [hre] at hre'; cases hre'
+      rcases addLevel_spec b (cnt (inst.queue b.rq) p) with ⟨a1, a2, _⟩ | ⟨_, _, a3⟩
+      · omega
+      · rw [a3, hre] at hre'; cases hre'
     · rw [e2] at hre'
       obtain ⟨h1, h2⟩ := h.closed b hb hre'
       rw [e1]; omega
@@ -283,5 +286,300 @@ theorem Inv.step {inst : Instance} {done : List Int} {s : MState} (h : Inv inst 
     obtain ⟨b, hb, rfl⟩ := List.mem_map.mp hb'
     rw [(hrq b hb).1] at hrqc
     exact huniq c hu b hb hrqc hre'
+
+/-! ### the three branches of `stepLevel` -/
+
+theorem mem_found {inst : Instance} {done : List Int} {s : MState} (h : Inv inst done s) {p : Int} {b : Batch}
+    (hb : b ∈ s.bs) : b.rq ∈ found inst s.bs p ↔ (b.reached = false ∧ cnt (inst.queue b.rq) p > 0) := by
+  simp only [found, List.mem_map, List.mem_filter, Bool.and_eq_true, Bool.not_eq_true', decide_eq_true_eq]
+  constructor
+  · rintro ⟨b', ⟨hb', h1, h2⟩, e⟩
+    have := rq_inj h (readyClasses_nodup inst) hb' hb e
+    subst this
+    exact ⟨h1, h2⟩
+  · rintro ⟨h1, h2⟩
+    exact ⟨b, ⟨hb, h1, h2⟩, rfl⟩
+
+/-- the classes that are not found add nothing or are beyond their limit -/
+theorem others_stable {inst : Instance} {done : List Int} {s : MState} (h : Inv inst done s) {p : Int} {c : Nat}
+    (hf : ∀ c' ∈ found inst s.bs p, c' = c) :
+    ∀ c' ∈ inst.readyClasses, c' ≠ c → cnt (inst.queue c') p = 0 ∨ N inst c' done > inst.limitOf c' := by
+  intro c' hc' hne
+  rw [← h.rqs] at hc'
+  obtain ⟨b, hb, rfl⟩ := List.mem_map.mp hc'
+  cases hre : b.reached with
+  | true =>
+    right
+    obtain ⟨_, h2⟩ := h.closed b hb hre
+    rw [← h.limit b hb]; exact h2
+  | false =>
+    left
+    cases hc : cnt (inst.queue b.rq) p with
+    | zero => rfl
+    | succ n => exact absurd (hf _ ((mem_found h hb).mpr ⟨hre, by omega⟩)) hne
+
+theorem step_nil {inst : Instance} {done : List Int} {s : MState} (h : Inv inst done s) {p : Int}
+    (hf : found inst s.bs p = []) : Inv inst (done ++ [p]) s := by
+  have hnf : ∀ b ∈ s.bs, ¬ (b.reached = false ∧ cnt (inst.queue b.rq) p > 0) := by
+    intro b hb hc
+    have := (mem_found h hb).mpr hc
+    rw [hf] at this; cases this
+  have key := Inv.step h p id s.unique (fun b _ => ⟨rfl, rfl⟩)
+    (fun b hb => Or.inr ⟨by
+      cases hre : b.reached with
+      | true => left; rfl
+      | false =>
+        right
+        cases hc : cnt (inst.queue b.rq) p with
+        | zero => rfl
+        | succ n => exact absurd ⟨hre, by omega⟩ (hnf b hb), rfl, rfl⟩)
+    (fun b _ => Or.inl rfl)
+    (fun b hb hre hc _ => absurd ⟨hre, hc⟩ (hnf b hb))
+    (fun c hu b hb hrq hre => by
+      have hst := blockersAtN_stable (done := done) (p := p) (others_stable h (c := c) (by rw [hf]; simp))
+      rw [hst]
+      exact h.uniq c hu b hb hrq hre)
+  simpa using key
+
+/-- the per-batch update of the `else` branch, in three stages -/
+def fC1 (bs : List Batch) (fnd : List Nat) (b : Batch) : Batch :=
+  if fnd.contains b.rq then
+    if (blockersOf bs b.rq).isEmpty then b
+    else { b with cuts := b.cuts ++ [{ size := b.size, blockers := blockersOf bs b.rq }] }
+  else b
+
+def fC2 (bs : List Batch) (fnd : List Nat) (b : Batch) : Batch :=
+  if b.live && fnd.any (· != b.rq) then { fC1 bs fnd b with blocker := true } else fC1 bs fnd b
+
+def fC (inst : Instance) (bs : List Batch) (fnd : List Nat) (p : Int) (b : Batch) : Batch :=
+  if fnd.contains b.rq then (fC2 bs fnd b).addLevel (cnt (inst.queue b.rq) p) else fC2 bs fnd b
+
+theorem cutAndAdd_eq (inst : Instance) (bs : List Batch) (fnd : List Nat) (p : Int) :
+    cutAndAdd inst bs fnd p = bs.map (fC inst bs fnd p) := rfl
+
+theorem fC1_spec (bs : List Batch) (fnd : List Nat) (b : Batch) :
+    (fC1 bs fnd b).rq = b.rq ∧ (fC1 bs fnd b).limit = b.limit ∧ (fC1 bs fnd b).size = b.size ∧
+    (fC1 bs fnd b).reached = b.reached ∧
+    (fC1 bs fnd b).cuts =
+      if fnd.contains b.rq then
+        if (blockersOf bs b.rq).isEmpty then b.cuts
+        else b.cuts ++ [{ size := b.size, blockers := blockersOf bs b.rq }]
+      else b.cuts := by
+  unfold fC1
+  split
+  · split <;> simp
+  · simp
+
+theorem fC2_spec (bs : List Batch) (fnd : List Nat) (b : Batch) :
+    (fC2 bs fnd b).rq = b.rq ∧ (fC2 bs fnd b).limit = b.limit ∧ (fC2 bs fnd b).size = b.size ∧
+    (fC2 bs fnd b).reached = b.reached ∧ (fC2 bs fnd b).cuts = (fC1 bs fnd b).cuts := by
+  obtain ⟨h1, h2, h3, h4, _⟩ := fC1_spec bs fnd b
+  unfold fC2
+  split
+  · exact ⟨h1, h2, h3, h4, rfl⟩
+  · exact ⟨h1, h2, h3, h4, rfl⟩
+
+theorem addLevel_congr (b b2 : Batch) (n : Nat) (h1 : b2.size = b.size) (h2 : b2.limit = b.limit)
+    (h3 : b2.reached = b.reached) :
+    (b2.addLevel n).size = (b.addLevel n).size ∧ (b2.addLevel n).reached = (b.addLevel n).reached := by
+  rcases addLevel_spec b n with ⟨a1, a2, a3⟩ | ⟨a1, a2, a3⟩ <;>
+    rcases addLevel_spec b2 n with ⟨c1, c2, c3⟩ | ⟨c1, c2, c3⟩
+  · rw [a2, a3, c2, c3, h2]; exact ⟨rfl, rfl⟩
+  · omega
+  · omega
+  · rw [a2, a3, c2, c3, h1, h3]; exact ⟨rfl, rfl⟩
+
+theorem fC_spec (inst : Instance) (bs : List Batch) (fnd : List Nat) (p : Int) (b : Batch) :
+    (fC inst bs fnd p b).rq = b.rq ∧ (fC inst bs fnd p b).limit = b.limit ∧
+    (fnd.contains b.rq = true →
+      (fC inst bs fnd p b).size = (b.addLevel (cnt (inst.queue b.rq) p)).size ∧
+      (fC inst bs fnd p b).reached = (b.addLevel (cnt (inst.queue b.rq) p)).reached ∧
+      (fC inst bs fnd p b).cuts =
+        if (blockersOf bs b.rq).isEmpty then b.cuts
+        else b.cuts ++ [{ size := b.size, blockers := blockersOf bs b.rq }]) ∧
+    (fnd.contains b.rq = false →
+      (fC inst bs fnd p b).size = b.size ∧ (fC inst bs fnd p b).reached = b.reached ∧
+      (fC inst bs fnd p b).cuts = b.cuts) := by
+  obtain ⟨g1, g2, g3, g4, g5⟩ := fC2_spec bs fnd b
+  obtain ⟨_, _, _, _, k5⟩ := fC1_spec bs fnd b
+  cases hc : fnd.contains b.rq with
+  | true =>
+    have e : fC inst bs fnd p b = (fC2 bs fnd b).addLevel (cnt (inst.queue b.rq) p) := by
+      unfold fC; rw [hc]; rfl
+    rw [hc] at k5
+    rw [e]
+    obtain ⟨a1, a2, a3⟩ := addLevel_rq (fC2 bs fnd b) (cnt (inst.queue b.rq) p)
+    obtain ⟨c1, c2⟩ := addLevel_congr b (fC2 bs fnd b) (cnt (inst.queue b.rq) p) g3 g2 g4
+    refine ⟨by rw [a1, g1], by rw [a2, g2], ?_, ?_⟩
+    · intro _
+      refine ⟨c1, c2, ?_⟩
+      rw [a3, g5, k5]; rfl
+    · intro h; cases h
+  | false =>
+    have e : fC inst bs fnd p b = fC2 bs fnd b := by
+      unfold fC; rw [hc]; rfl
+    rw [hc] at k5
+    rw [e]
+    refine ⟨g1, g2, ?_, ?_⟩
+    · intro h; cases h
+    · intro _
+      refine ⟨g3, g4, ?_⟩
+      rw [g5, k5]; rfl
+
+theorem step_cut {inst : Instance} {done : List Int} {s : MState} (h : Inv inst done s) {p : Int}
+    (u : Option Nat) (hu : ∀ c, u = some c → found inst s.bs p = [c]) :
+    Inv inst (done ++ [p]) { bs := cutAndAdd inst s.bs (found inst s.bs p) p, unique := u } := by
+  rw [cutAndAdd_eq]
+  have hbo := blockersOf_eq h
+  have hcont : ∀ b ∈ s.bs, (found inst s.bs p).contains b.rq = true ↔
+      (b.reached = false ∧ cnt (inst.queue b.rq) p > 0) := by
+    intro b hb
+    rw [List.contains_iff_mem]; exact mem_found h hb
+  apply Inv.step h p
+  · intro b _
+    obtain ⟨h1, h2, _⟩ := fC_spec inst s.bs (found inst s.bs p) p b
+    exact ⟨h1, h2⟩
+  · intro b hb
+    obtain ⟨_, _, h3, h4⟩ := fC_spec inst s.bs (found inst s.bs p) p b
+    cases hc : (found inst s.bs p).contains b.rq with
+    | true =>
+      obtain ⟨hre, hcnt⟩ := (hcont b hb).mp hc
+      obtain ⟨e1, e2, _⟩ := h3 hc
+      exact Or.inl ⟨hre, hcnt, e1, e2⟩
+    | false =>
+      obtain ⟨e1, e2, _⟩ := h4 hc
+      refine Or.inr ⟨?_, e1, e2⟩
+      cases hre : b.reached with
+      | true => left; rfl
+      | false =>
+        right
+        cases hcn : cnt (inst.queue b.rq) p with
+        | zero => rfl
+        | succ n =>
+          have := (hcont b hb).mpr ⟨hre, by omega⟩
+          rw [hc] at this; cases this
+  · intro b hb
+    obtain ⟨_, _, h3, h4⟩ := fC_spec inst s.bs (found inst s.bs p) p b
+    cases hc : (found inst s.bs p).contains b.rq with
+    | true =>
+      obtain ⟨hre, hcnt⟩ := (hcont b hb).mp hc
+      obtain ⟨_, _, e3⟩ := h3 hc
+      cases he : (blockersOf s.bs b.rq).isEmpty with
+      | true => left; rw [e3, he]; rfl
+      | false => right; exact ⟨hre, hcnt, by rw [e3, he]; rfl⟩
+    | false => left; exact (h4 hc).2.2
+  · intro b hb hre hcnt hne
+    obtain ⟨_, _, h3, _⟩ := fC_spec inst s.bs (found inst s.bs p) p b
+    obtain ⟨_, _, e3⟩ := h3 ((hcont b hb).mpr ⟨hre, hcnt⟩)
+    have he : (blockersOf s.bs b.rq).isEmpty = false := by
+      rw [hbo]
+      cases hh : (blockersAtN inst b.rq done).isEmpty with
+      | false => rfl
+      | true => exact absurd (List.isEmpty_iff.mp hh) hne
+    rw [e3, he]
+    refine ⟨{ size := b.size, blockers := blockersOf s.bs b.rq }, by simp, ?_, hbo b.rq⟩
+    obtain ⟨h1, _⟩ := h.open_ b hb hre
+    simp only; omega
+  · intro c huc b hb hrqc hre'
+    have hfc := hu c huc
+    have hst := blockersAtN_stable (done := done) (p := p) (others_stable h (c := c) (by rw [hfc]; simp))
+    rw [hst]
+    by_cases hne : blockersAtN inst c done = []
+    · left; exact hne
+    · right
+      obtain ⟨_, _, h3, _⟩ := fC_spec inst s.bs (found inst s.bs p) p b
+      have hc : (found inst s.bs p).contains b.rq = true := by
+        rw [List.contains_iff_mem, hfc, hrqc]; simp
+      obtain ⟨hre, hcnt⟩ := (hcont b hb).mp hc
+      obtain ⟨e1, e2, e3⟩ := h3 hc
+      have he : (blockersOf s.bs b.rq).isEmpty = false := by
+        rw [hbo, hrqc]
+        cases hh : (blockersAtN inst c done).isEmpty with
+        | false => rfl
+        | true => exact absurd (List.isEmpty_iff.mp hh) hne
+      rw [e3, he]
+      refine ⟨{ size := b.size, blockers := blockersOf s.bs b.rq }, by simp, ?_, by rw [hbo, hrqc]⟩
+      rw [e2] at hre'
+      rw [e1]
+      rcases addLevel_spec b (cnt (inst.queue b.rq) p) with ⟨_, _, a3⟩ | ⟨_, a2, _⟩
+      · rw [a3] at hre'; cases hre'
+      · simp only; omega
+
+theorem step_same {inst : Instance} {done : List Int} {s : MState} (h : Inv inst done s) {p : Int} {c : Nat}
+    (hf : found inst s.bs p = [c]) (hu : s.unique = some c) :
+    Inv inst (done ++ [p])
+      { s with bs := s.bs.map fun b => if b.rq = c then b.addLevel (cnt (inst.queue c) p) else b } := by
+  have hcond : ∀ b ∈ s.bs, b.rq = c ↔ (b.reached = false ∧ cnt (inst.queue b.rq) p > 0) := by
+    intro b hb
+    rw [← mem_found h hb, hf]; simp
+  have hst := blockersAtN_stable (done := done) (p := p) (others_stable h (c := c) (by rw [hf]; simp))
+  apply Inv.step h p
+  · intro b _
+    split
+    · exact ⟨(addLevel_rq b _).1, (addLevel_rq b _).2.1⟩
+    · simp
+  · intro b hb
+    by_cases hbc : b.rq = c
+    · obtain ⟨hre, hcnt⟩ := (hcond b hb).mp hbc
+      left
+      rw [if_pos hbc, ← hbc]
+      exact ⟨hre, hcnt, rfl, rfl⟩
+    · right
+      rw [if_neg hbc]
+      refine ⟨?_, rfl, rfl⟩
+      cases hre : b.reached with
+      | true => left; rfl
+      | false =>
+        right
+        cases hcn : cnt (inst.queue b.rq) p with
+        | zero => rfl
+        | succ n => exact absurd ((hcond b hb).mpr ⟨hre, by omega⟩) hbc
+  · intro b _
+    left
+    split
+    · exact (addLevel_rq b _).2.2
+    · rfl
+  · intro b hb hre hcnt hne
+    have hbc := (hcond b hb).mpr ⟨hre, hcnt⟩
+    rcases h.uniq c hu b hb hbc hre with h0 | ⟨cut, hc, h1, h2⟩
+    · rw [hbc] at hne; exact absurd h0 hne
+    · obtain ⟨e1, _⟩ := h.open_ b hb hre
+      refine ⟨cut, ?_, by omega, by rw [hbc]; exact h2⟩
+      simp only [hbc, ↓reduceIte, (addLevel_rq b _).2.2]
+      exact hc
+  · intro c' hu' b hb hbc hre'
+    have hcc : c' = c := by rw [hu] at hu'; cases hu'; rfl
+    subst hcc
+    rw [hst]
+    obtain ⟨hre, _⟩ := (hcond b hb).mp hbc
+    rcases h.uniq c' hu b hb hbc hre with h0 | ⟨cut, hc, h1, h2⟩
+    · left; exact h0
+    · right
+      simp only [hbc, ↓reduceIte] at hre' ⊢
+      refine ⟨cut, by rw [(addLevel_rq b _).2.2]; exact hc, ?_, h2⟩
+      rcases addLevel_spec b (cnt (inst.queue c') p) with ⟨_, _, a3⟩ | ⟨_, a2, _⟩
+      · rw [a3] at hre'; cases hre'
+      · omega
+
+theorem stepLevel_inv {inst : Instance} {done : List Int} {s : MState} (h : Inv inst done s) (p : Int) :
+    Inv inst (done ++ [p]) (stepLevel inst s p) := by
+  unfold stepLevel
+  split
+  · rename_i hf; exact step_nil h hf
+  · rename_i c hf
+    split
+    · rename_i hu; exact step_same h hf hu
+    · have := step_cut h (p := p) (some c) (fun c' hc' => by cases hc'; exact hf)
+      rw [hf] at this; exact this
+  · rename_i fnd h1 h2
+    have := step_cut h (p := p) none (fun c' hc' => by cases hc')
+    exact this
+
+theorem foldl_inv {inst : Instance} : ∀ (ps done : List Int) (s : MState), Inv inst done s →
+    Inv inst (done ++ ps) (ps.foldl (stepLevel inst) s)
+  | [], done, s, h => by simpa using h
+  | p :: rest, done, s, h => by
+    have := foldl_inv rest (done ++ [p]) (stepLevel inst s p) (stepLevel_inv h p)
+    simpa using this
 
 end HqModel.Sched
